@@ -450,3 +450,53 @@ Definition post_bcast_pre_0a57bb9 (p : plat) (r : nicrow) : option Z :=
   | Windows, MAddr _ => if n_fam r =? 1 then n_bcast r else post_bcast p r
   | _, _ => post_bcast p r
   end.
+
+(* ------------------------------------------------------------------ the cached name, through the front end *)
+(* psutil/__init__.py Process.name() on POSIX: the kernel name (at most 15 bytes where the kernel truncates) is replaced by
+   basename(cmdline()[0]) when that starts with it; the result is stored in self._name AND self._proc._name -- in the
+   model ONE piece of state [cache], read by every wrap_exceptions when it builds NoSuchProcess / ZombieProcess /
+   AccessDenied / TimeoutExpired (pid, name). *)
+Definition basename (c : bytes) : bytes := fold_left (fun acc b => if b =? 47 then [] else acc ++ [b]) c [].
+Definition fe_name (kname cmd0 : bytes) (have_cmd : bool) : bytes :=
+  if (15 <=? Z.of_nat (List.length kname)) && have_cmd then
+    (let b := basename cmd0 in if prefixb kname b then b else kname)
+  else kname.
+Inductive fevent :=
+| EName (kname cmd0 : bytes) (have_cmd ok : bool)     (* front-end name(); ok = false: it raised *)
+| ECall (r : res).                                     (* a later method whose platform call ends with class r *)
+Inductive fout :=
+| OName (n : bytes) | ONameFailed
+| ORes (r : res) (name : option bytes).                (* name = what the exception carries (psutil classes) *)
+Definition fe_step (cache : option bytes) (ev : fevent) : option bytes * fout :=
+  match ev with
+  | EName k c h true => let n := fe_name k c h in (Some n, OName n)
+  | EName _ _ _ false => (cache, ONameFailed)
+  | ECall r => (cache, ORes r cache)
+  end.
+Fixpoint fe_run (cache : option bytes) (evs : list fevent) : list fout :=
+  match evs with
+  | [] => []
+  | ev :: rest => let (c', o) := fe_step cache ev in o :: fe_run c' rest
+  end.
+(* ghost: the name the user last saw returned by name() (None: never) *)
+Fixpoint last_returned (dflt : option bytes) (outs : list fout) : option bytes :=
+  match outs with
+  | [] => dflt
+  | OName n :: rest => last_returned (Some n) rest
+  | _ :: rest => last_returned dflt rest
+  end.
+
+(* one front-end history: name() called (mode 0) / never called (1) / called and failed (2), then platform method pm
+   failing at native call site with e (pm = "wait", site = "": wait(0) without a failing call): the name the user saw
+   returned, and the final outcome with the name it carries *)
+Definition fe_history_model (p : plat) (kname cmd0 : bytes) (mode : Z) (pm site : string) (e : err) (s : pstate)
+  : option bytes * fout :=
+  let r := if seq pm "wait" && seq site "" then wait_outcome p WPlain s
+           else method_outcome p pm site (Build_cond e s false) in
+  let evs := (if mode =? 0 then [EName kname cmd0 true true] else if mode =? 2 then [EName kname cmd0 true false] else [])
+             ++ [ECall r] in
+  let outs := fe_run None evs in
+  (last_returned None outs, last outs ONameFailed).
+Record frow := { fr_plat : plat; fr_kname : bytes; fr_cmd0 : bytes; fr_mode : Z; fr_meth : string; fr_site : string;
+                 fr_err : err; fr_state : pstate; fr_returned : option bytes; fr_cls : res; fr_pid_ok : bool;
+                 fr_name : option bytes }.
